@@ -23,8 +23,8 @@ EXHAUSTIVE = {"quick": True, "thorough": True}
 EXHAUSTIVE_PART = "all hex cells within N rings (quick N=14, thorough N=60) for both orientations; all cartesian cells within N rings"
 TIMEOUT = {"quick": 600, "thorough": 3600}
 FLOORS = {
-    "quick": {"hex.cell": 1000, "hex.neighbours": 1000, "cart.cell": 500, "bounds.cell": 200, "nest.loc": 100, "minrings": 1000, "reduce": 50, "changePitch": 20, "reduce.after-mutation": 60, "nest.no-add": 40},
-    "thorough": {"hex.cell": 20000, "hex.neighbours": 20000, "cart.cell": 5000, "bounds.cell": 2000, "nest.loc": 1000, "minrings": 10000, "reduce": 500, "changePitch": 200, "reduce.after-mutation": 600, "nest.no-add": 300},
+    "quick": {"hex.cell": 1000, "hex.neighbours": 1000, "cart.cell": 500, "bounds.cell": 200, "nest.loc": 100, "minrings": 1000, "reduce": 50, "changePitch": 20, "reduce.after-mutation": 60, "nest.no-add": 40, "mixed-layout.cell": 800, "mixed-layout.cell/BSS": 100, "mixed-layout.cell/SBS": 100},
+    "thorough": {"hex.cell": 20000, "hex.neighbours": 20000, "cart.cell": 5000, "bounds.cell": 2000, "nest.loc": 1000, "minrings": 10000, "reduce": 500, "changePitch": 200, "reduce.after-mutation": 600, "nest.no-add": 300, "mixed-layout.cell": 8000, "mixed-layout.cell/BSS": 1000, "mixed-layout.cell/SBS": 1000},
 }
 
 
@@ -417,6 +417,38 @@ def do_bounds(spec, rec, rng):
             rec.reject("bounds-negative-index")
         except Exception as e:
             rec.crash("axial-negative", e, {})
+        # --- every mix of step-defined and bounds-defined dimensions (a non-uniform x mesh with uniform y and z, ...): each
+        # coordinate is the affine rule of its own dimension, whichever order the two kinds come in
+        lay = ["SSS", "SSB", "SBS", "BSS", "SBB", "BSB", "BBS", "BBB"][n % 8]
+        st = [rng.uniform(.5, 3.0) if L == "S" else 0.0 for L in lay]
+        bd = [inc_bounds(rng, rng.randint(2, 5), lo=rng.uniform(-5, 5)) if L == "B" else None for L in lay]
+        offm = None if rng.random() < .5 else [rng.uniform(-3, 3) for _ in range(3)]
+        wm = {"grid": "cartesian-mixed", "layout": lay, "steps": st, "bounds": bd, "offset": offm}
+        try:
+            sd_ = [d for d, L in enumerate(lay) if L == "S"]
+            # unit steps: one row per dimension, one column per step-defined dimension (as armi's own hex-with-axial-bounds grids)
+            rows_ = [(tuple(st[d] if c_ == d else 0.0 for c_ in sd_) if lay[d] == "S" else (0.0,) * len(sd_)) if sd_ else 0 for d in range(3)]
+            gm = grids.CartesianGrid(unitSteps=tuple(rows_), bounds=tuple(np.array(b_) if b_ is not None else None for b_ in bd),
+                                     unitStepLimits=tuple((0, 1) if L == "B" else (-2, 3) for L in lay), offset=offm)
+            om = offm or [0, 0, 0]
+            for _ in range(12):
+                idx = tuple(rng.randint(-3, 3) if L == "S" else rng.randrange(len(bd[d]) - 1) for d, L in enumerate(lay))
+                rec.hit("mixed-layout.cell")
+                rec.hit("mixed-layout.cell/" + lay)
+                want_c, want_b, want_t = [], [], []
+                for d, L in enumerate(lay):
+                    if L == "S":
+                        want_c.append(idx[d] * st[d] + om[d]); want_b.append((idx[d] - .5) * st[d] + om[d]); want_t.append((idx[d] + .5) * st[d] + om[d])
+                    else:
+                        lo_, hi_ = bd[d][idx[d]], bd[d][idx[d] + 1]
+                        want_c.append((lo_ + hi_) / 2 + om[d]); want_b.append(lo_ + om[d]); want_t.append(hi_ + om[d])
+                c, b, t = gm.getCoordinates(idx), gm.getCellBase(idx), gm.getCellTop(idx)
+                if not vclose(c, want_c, 10.0) or not vclose(b, want_b, 10.0) or not vclose(t, want_t, 10.0):
+                    rec.violation("mixed-layout/%s" % lay, "layout %s cell %s: centre %s base %s top %s, by the rule of each dimension %s %s %s" % (
+                        lay, idx, [float(x) for x in c], [float(x) for x in b], [float(x) for x in t], want_c, want_b, want_t), dict(wm, cell=list(idx)))
+                    break
+        except Exception as e:
+            rec.crash("mixed-layout", e, wm)
         # --- theta-r-z
         nt, nr, nz = rng.randint(1, 8), rng.randint(1, 6), rng.randint(1, 5)
         tb = inc_bounds(rng, nt, 0.0, hi=rng.choice([2 * math.pi, 2 * math.pi / 3, math.pi / 2, rng.uniform(.1, 2 * math.pi)]))
